@@ -469,6 +469,10 @@ def check_property(pid, tier, seed=0, replay_only=None):
         'coverage': {
             'obligations': obligations, 'discharged': discharged + known_n if exit_code == 0 else discharged,
             'discharged_outside_known_findings': known_n,
+            'explanation': ('obligations = distinct named obligations (one per contract clause and unit; each stands for path_level_vcs solver queries). '
+                            'discharged counts an obligation when every one of its path-level VCs is unsat; %d of them are unsat only after the region of a '
+                            'finding listed in known_findings.json is excluded (reported on stdout as KNOWN-FINDING, see known_findings) - those are NOT proofs of the '
+                            'property inside that region. Bounded run-time checks are reported separately and never counted here.' % known_n),
             'path_level_vcs': total_vcs,
             'checker_cmd': './check %s --tier %s' % (pid, tier),
             'trusted_base': stdlib.TRUSTED + list(meta.get('trusted', [])),
@@ -494,8 +498,8 @@ def check_property(pid, tier, seed=0, replay_only=None):
     os.makedirs(os.path.join(OUT, 'evidence'), exist_ok=True)
     with open(os.path.join(OUT, 'evidence', '%s.json' % pid), 'w') as f:
         json.dump(ev, f, indent=1, sort_keys=True)
-    print('%s %s: %d obligations (%d path-level VCs), %d discharged, %d known-finding, %d violation(s), %d problem(s); %d units, canaries %d/%d; cross-check %d; %.1fs; exit %d' % (
-        pid, tier, obligations, total_vcs, discharged, known_n, n_viol, len(problems), len(units), canary_ok, len(canaries), xcheck_n, time.time() - t0, exit_code))
+    print('%s %s: %d obligations (%d path-level VCs), %d discharged, %d known-finding, %d violation(s), %d problem(s); %d units, canaries %d/%d; cross-check %d; bounded run-time evaluations %d; %.1fs; exit %d' % (
+        pid, tier, obligations, total_vcs, discharged, known_n, n_viol, len(problems), len(units), canary_ok, len(canaries), xcheck_n, bounded_stats['evaluations'], time.time() - t0, exit_code))
     return exit_code
 
 
